@@ -74,12 +74,12 @@ pub fn run(ctx: &Ctx) {
     // malformed input
     let mut bad: Vec<(String, Vec<u8>)> = Vec::new();
     for n in (1..=31usize).step_by(2) { bad.push(("odd-digits".into(), lower[..n].as_bytes().to_vec())); bad.push(("odd-digits-0x".into(), format!("0x{}", &lower[..n]).into_bytes())); }
-    for d in ["g", "x", "-", "+", "\u{200b}", "\u{e9}", "0x", ".", "G", "\u{ff11}", ":", "_"] { for pos in 0..=lower.len() { let mut s = format!("0x{lower}"); s.insert_str(2 + pos, d); bad.push((format!("non-hex-{}", if d.is_ascii() { "ascii" } else { "non-ascii" }), s.into_bytes())); } }
+    for d in ["g", "x", "-", "+", "\u{200b}", "\u{e9}", "0x", ".", "G", "\u{ff11}", ":", "_", "\u{131}", "\u{661}", "\u{1f531}"] { for pos in 0..=lower.len() { let mut s = format!("0x{lower}"); s.insert_str(2 + pos, d); bad.push((format!("non-hex-{}", if d.is_ascii() { "ascii" } else { "non-ascii" }), s.into_bytes())); } }
     // a long run of valid digits before the defect (buffered / streaming decoders): still no byte of output
     for n in [4096usize, 8192, 65536, 131072, 131074, 262144, 1 << 20] { let run = "5a".repeat(n / 2);
         for (name, t) in [("then-non-hex", format!("0x{run}zz")), ("then-odd-digit", format!("{run}5")), ("then-non-hex-then-valid", format!("0x{run}g{run}")), ("newlines-then-non-hex", format!("{}\nxx", run.as_bytes().chunks(64).map(|c| std::str::from_utf8(c).unwrap()).collect::<Vec<_>>().join("\n")))] { bad.push((format!("long-valid-run-{name}"), t.into_bytes())); } }
     bad.push(("invalid-utf8".into(), vec![0x30, 0x78, 0xff, 0xfe])); bad.push(("nul".into(), b"0x00\x0000".to_vec())); bad.push(("empty".into(), vec![])); bad.push(("only-0x".into(), b"0x".to_vec())); bad.push(("only-ws".into(), b" \n".to_vec())); bad.push(("x0".into(), b"x0aa".to_vec())); bad.push(("0x-twice".into(), b"0x0xaa".to_vec())); bad.push(("split-prefix".into(), b"0 xaa".to_vec()));
-    ctx.sweep("decode-malformed", "odd digit counts 1..31, 9 non-hex insertions at every index, invalid UTF-8, NUL, empty, doubled and split prefixes", bad.len() as u64, |i| { let (s, t) = &bad[i as usize]; check_decode(ctx, "decode-malformed", i, s, t, i % 4 == 0); });
+    ctx.sweep("decode-malformed", "odd digit counts 1..31, 15 non-hex insertions at every index (incl. three characters whose code point cut to one byte is a hex digit), invalid UTF-8, NUL, empty, doubled and split prefixes", bad.len() as u64, |i| { let (s, t) = &bad[i as usize]; check_decode(ctx, "decode-malformed", i, s, t, i % 4 == 0); });
     // "ignores whitespace ANYWHERE": whatever separator the tool ignores in a small input it must ignore at every offset of a
     // large one - in particular where a block-wise reader's buffers end (multi-byte separators straddle the boundary). The
     // small input decides per separator whether the tool counts it as whitespace; the large inputs must agree with it.
